@@ -278,6 +278,12 @@ def rule_B2(ctx):
         return cands[0] if len(cands) == 1 else None
 
     d1, d2 = only_dict(fi), only_dict(ti)
+    if d1 is None and d2 is not None:
+        # the printing side computes letter and sharp flag instead of reading them from a 12-entry table: nothing here shows that each
+        # semitone gets the letter / sharp pair that the parsing table maps back to it
+        ctx.ob("B2", fi, "number -> note mapping is a 12-entry table that can be compared with the parsing table entry by entry", False,
+               "from_int_a0 computes the note instead of looking it up: agreement with to_int_a0's table (each of the 12 semitones) is not established", inst="from-keys")
+        return
     if d1 is None or d2 is None:
         raise AnalysisError("B2", MIDI, "scale tables not found")
     try:
